@@ -108,7 +108,9 @@ PROBES = {
     "C13": [("sqlite_states_prepared", 1), ("accumulation_list_checks", 1), ("accumulation_conjoin_checks", 1),
             ("accumulation_lastwins_checks", 1), ("modes.entry", 1), ("modes.cross", 1), ("statement_kinds.setop", 1),
             ("statement_kinds.create", 1), ("merges_executed_besides_canonical", 100), ("modes.population", 1),
-            ("statement_kinds.load", 1), ("population_statements_lexed", 100)],
+            ("statement_kinds.load", 1), ("population_statements_lexed", 100),
+            ("population_subquery_embeddings_compared_with_standalone_text", 10),
+            ("population_nested_statements_prepared_by_sqlite", 5)],
     "C15": [("duplication_mechanisms.copy", 1), ("duplication_mechanisms.deepcopy", 1), ("duplication_mechanisms.pickle", 1),
             ("restarts_pickle_to_other_interpreter", 1), ("ops_continued_on_restored_objects", 1),
             ("mutable_mode_objects", 1), ("builder_calls_on_a_duplicate_or_its_original_after_the_dup", 1),
